@@ -841,6 +841,143 @@ class Unit:
         if m not in self.needed: self.needed.append(m)
 
 
+def _enum_members(cls_node):
+    """[(NAME, int value)] of an Enum class body"""
+    out = []
+    for st in cls_node.body:
+        if isinstance(st, ast.Assign) and len(st.targets) == 1 and _name(st.targets[0]) and isinstance(st.value, ast.Constant) and isinstance(st.value.value, int):
+            out.append((st.targets[0].id, st.value.value))
+    return out
+
+
+STRATS = {"BALANCED": "balanced", "FAST": "fast", "RANDOM": "random"}
+
+
+def compile_strategy(u):
+    """`KDTree.BuildStrategy` (Enum members) and `from_string` (a chain of `if txt.lower() == "<s>": return cls.<M>`)"""
+    bs = [x for x in u.cls.body if isinstance(x, ast.ClassDef) and x.name == "BuildStrategy"]
+    if not bs: raise TranslateError("class KDTree.BuildStrategy not found")
+    members = _enum_members(bs[0])
+    if sorted(m for m, _ in members) != sorted(STRATS) or len({v for _, v in members}) != len(members):
+        raise TranslateError(f"BuildStrategy: members {members} (expected distinct values for {sorted(STRATS)})")
+    fs = [f for f in bs[0].body if isinstance(f, ast.FunctionDef) and f.name == "from_string"]
+    if not fs: raise TranslateError("BuildStrategy.from_string not found")
+    fn = fs[0]
+    names = [a.arg for a in fn.args.args]
+    if len(names) != 2: raise TranslateError(f"from_string: parameters {names}")
+    rows = []
+    stmts = list(_body(fn))
+    while stmts:
+        st = stmts.pop(0)
+        if not isinstance(st, ast.If): raise TranslateError(f"from_string: statement `{ast.unparse(st)[:60]}`")
+        t = st.test
+        if not (isinstance(t, ast.Compare) and len(t.ops) == 1 and isinstance(t.ops[0], ast.Eq)):
+            raise TranslateError(f"from_string: test `{ast.unparse(t)[:60]}`")
+        a, b = t.left, t.comparators[0]
+        if isinstance(a, ast.Constant): a, b = b, a
+        if not (ast.unparse(a) == f"{names[1]}.lower()" and isinstance(b, ast.Constant) and isinstance(b.value, str)):
+            raise TranslateError(f"from_string: test `{ast.unparse(t)[:60]}`")
+        body = _strip(st.body)
+        if not (len(body) == 1 and isinstance(body[0], ast.Return) and isinstance(body[0].value, ast.Attribute)
+                and ast.unparse(body[0].value.value) in (names[0], "KDTree.BuildStrategy", "BuildStrategy") and body[0].value.attr in STRATS):
+            raise TranslateError(f"from_string: branch `{ast.unparse(st)[:80]}`")
+        rows.append((b.value, STRATS[body[0].value.attr]))
+        stmts = _strip(st.orelse) + stmts
+    txt = ("/-- `KDTree.BuildStrategy.from_string` (the argument is lower-cased first; no match: `None`) -/\n"
+           "def strategyOfString (v_txt : String) : Option Strategy :=\n")
+    for sname, m in rows:
+        txt += f'  if v_txt = "{sname}" then some .{m} else\n'
+    txt += "  none\n"
+    return txt, rows
+
+
+def compile_find_pivot(u):
+    """`_find_pivot`: an if / elif chain on `self.build_strategy == KDTree.BuildStrategy.<M>`; `np.random.choice(a, n, replace=False)` is
+    the parameter `sample a n` (ANY list), `np.random.choice(a, 1)[0]` the parameter `pick a` (ANY value), `np.median` the exact median"""
+    fn = u.methods.get("_find_pivot")
+    if fn is None: raise TranslateError("KDTree._find_pivot not found")
+    names = [a.arg for a in fn.args.args]
+    if len(names) != 2: raise TranslateError(f"_find_pivot: parameters {names}")
+    env = {names[1]: "ratlist"}
+
+    def E(n):
+        if _name(n) and n.id in env: return "v_" + n.id, env[n.id]
+        if isinstance(n, ast.Constant) and isinstance(n.value, int) and not isinstance(n.value, bool): return str(n.value), "nat"
+        if isinstance(n, ast.Attribute) and n.attr == "size":
+            t, ty = E(n.value)
+            if ty == "ratlist": return f"{t}.length", "nat"
+        d = _call(n)
+        if d == "len" and len(n.args) == 1:
+            t, ty = E(n.args[0])
+            if ty == "ratlist": return f"{t}.length", "nat"
+        if d == "min" and len(n.args) == 2:
+            a, aty = E(n.args[0]); b, bty = E(n.args[1])
+            if aty == "nat" and bty == "nat": return f"(min {a} {b})", "nat"
+        if d in ("np.median", "numpy.median") and len(n.args) == 1 and not n.keywords:
+            a, aty = E(n.args[0])
+            if aty == "ratlist": return f"(median {a})", "rat"
+        if d in ("np.random.choice", "numpy.random.choice") and len(n.args) == 2:
+            kw = {k.arg: ast.unparse(k.value) for k in n.keywords}
+            a, aty = E(n.args[0]); b, bty = E(n.args[1])
+            if aty == "ratlist" and bty == "nat" and kw == {"replace": "False"}: return f"(sample {a} {b})", "ratlist"
+        if isinstance(n, ast.Subscript) and isinstance(n.slice, ast.Constant) and n.slice.value == 0 and _call(n.value) in ("np.random.choice", "numpy.random.choice"):
+            c = n.value
+            if len(c.args) == 2 and isinstance(c.args[1], ast.Constant) and c.args[1].value == 1 and not c.keywords:
+                a, aty = E(c.args[0])
+                if aty == "ratlist": return f"(pick {a})", "rat"
+        raise TranslateError(f"_find_pivot: expression `{ast.unparse(n)[:70]}` is not understood")
+
+    def block(stmts):
+        if not stmts: raise TranslateError("_find_pivot: a branch falls off the end")
+        st, rest = stmts[0], stmts[1:]
+        if isinstance(st, ast.Return):
+            t, ty = E(st.value)
+            if ty != "rat": raise TranslateError(f"_find_pivot: returns a value of type {ty}")
+            return f"some {t}"
+        if isinstance(st, ast.Raise): return "none"
+        if isinstance(st, ast.Assign) and len(st.targets) == 1 and _name(st.targets[0]):
+            t, ty = E(st.value)
+            env[st.targets[0].id] = ty
+            return f"let v_{st.targets[0].id} := {t}\n" + block(rest)
+        if isinstance(st, ast.If):
+            t = st.test
+            if not (isinstance(t, ast.Compare) and len(t.ops) == 1 and isinstance(t.ops[0], ast.Eq)): raise TranslateError(f"_find_pivot: test `{ast.unparse(t)[:60]}`")
+            a, b = t.left, t.comparators[0]
+            if ast.unparse(b) == "self.build_strategy": a, b = b, a
+            if not (ast.unparse(a) == "self.build_strategy" and isinstance(b, ast.Attribute) and b.attr in STRATS
+                    and ast.unparse(b.value) in ("KDTree.BuildStrategy", "self.BuildStrategy", "BuildStrategy")):
+                raise TranslateError(f"_find_pivot: test `{ast.unparse(t)[:60]}`")
+            saved = dict(env)
+            yes = block(_strip(st.body)); env.clear(); env.update(saved)
+            no = block(_strip(st.orelse) + rest) if (st.orelse or rest) else "none"
+            env.clear(); env.update(saved)
+            return f"if strat = .{STRATS[b.attr]} then (\n{ind(yes)}\n) else (\n{ind(no)}\n)"
+        raise TranslateError(f"_find_pivot: statement `{ast.unparse(st)[:70]}` is not understood")
+    txt = block(_body(fn))
+    return ("/-- `KDTree._find_pivot`: `sample` = `np.random.choice(·, n, replace=False)`, `pick` = `np.random.choice(·, 1)[0]` (ANY functions:\n"
+            "every random draw); `none` = the final `raise` -/\n"
+            f"def findPivot (strat : Strategy) (sample : List Rat → Nat → List Rat) (pick : List Rat → Rat) (v_{names[1]} : List Rat) : Option Rat :=\n"
+            + ind(txt) + "\n")
+
+
+def compile_init_strategy(u):
+    """the strategy strings `__init__` accepts: `check_argument("strategy", strategy.lower(), str, [..])` and the call of from_string"""
+    fn = u.methods["__init__"]
+    lst = None
+    uses = False
+    for n in ast.walk(fn):
+        if _call(n, "check_argument") and len(n.args) == 4 and isinstance(n.args[0], ast.Constant) and n.args[0].value == "strategy" \
+                and isinstance(n.args[3], ast.List) and all(isinstance(e, ast.Constant) and isinstance(e.value, str) for e in n.args[3].elts) \
+                and ast.unparse(n.args[1]).endswith(".lower()"):
+            lst = [e.value for e in n.args[3].elts]
+        if isinstance(n, ast.Assign) and _is_self(n.targets[0], "build_strategy") and _call(n.value, "KDTree.BuildStrategy.from_string"):
+            uses = True
+    if lst is None or not uses:
+        raise TranslateError("__init__: `check_argument('strategy', strategy.lower(), str, [..])` / `self.build_strategy = KDTree.BuildStrategy.from_string(..)` not found")
+    return ("/-- the strategy names `__init__` accepts (`check_argument`, after `.lower()`) -/\n"
+            "def acceptedStrategies : List String := [" + ", ".join(f'"{x}"' for x in lst) + "]\n"), lst
+
+
 FIXED_P = " (P : Nat → Pt)"
 
 
@@ -1050,13 +1187,25 @@ def translate():
         chunks["radius"] = compile_query(u, "query_radius", "queryRadius", "rat")
         return "body compiled"
 
-    for name, fn in (("kdtree.py: dataclasses KDTree.Leaf / KDTree.Node (field order)", s_fields),
+    def s_strategy():
+        txt, rows = compile_strategy(u)
+        t2, lst = compile_init_strategy(u)
+        chunks["strategy"] = txt + "\n" + t2
+        return f"from_string {rows}; accepted {lst}"
+
+    def s_find_pivot():
+        chunks["findPivot"] = compile_find_pivot(u)
+        return "body compiled"
+
+    for name, fn in (("kdtree.py: KDTree.BuildStrategy + from_string + the strategies __init__ accepts", s_strategy),
+                     ("kdtree.py: KDTree._find_pivot (body)", s_find_pivot),
+                     ("kdtree.py: dataclasses KDTree.Leaf / KDTree.Node (field order)", s_fields),
                      ("kdtree.py: KDTree.Leaf.size (body)", s_leaf_size), ("kdtree.py: KDTree._new_leaf (body)", s_new_leaf),
                      ("kdtree.py: KDTree._split_points (body)", s_split), ("kdtree.py: KDTree.is_leaf (body)", s_is_leaf),
                      ("kdtree.py: KDTree.__init__ (body)", s_init), ("kdtree.py: KDTree.query (body)", s_query),
                      ("kdtree.py: KDTree.query_radius (body)", s_radius)):
         sites.append(T.site(name, fn))
-    order = ["fieldsLeaf", "fieldsNode", "leafSize", "newLeaf", "splitPoints", "isLeaf", "init", "query", "radius"]
+    order = ["strategy", "findPivot", "fieldsLeaf", "fieldsNode", "leafSize", "newLeaf", "splitPoints", "isLeaf", "init", "query", "radius"]
     body = "\n".join(chunks.get(k, "") for k in order) + "\nend Mouette.Generated.C11S\n"
     T.write_generated("C11Src", body, HEADER)
     return sites
